@@ -283,6 +283,8 @@ fn main() {
     Some("replay-jsr") => cmd_replay_jsr(&args),
     Some("record-jsr") => cmd_record_jsr(&args),
     Some("sched") => cmd_sched(&args),
+    Some("info") => cmd_info(&args),
+    Some("replay-enc") => cmd_replay_enc(&args),
     _ => {
       eprintln!("usage: dgv <replay-core> ...");
       2
@@ -545,6 +547,299 @@ pub fn cmd_sched(args: &[String]) -> i32 {
     writeln!(f, "{}", e).unwrap();
   }
   let res = json!({"runs": runs, "trace_events": out.len(), "mismatches": problems});
+  std::fs::write(&result_path, serde_json::to_string(&res).unwrap()).unwrap();
+  0
+}
+
+/// info (C13): (a) every module source of the generated worlds (and of the repository's spec corpus) is analysed,
+/// serialised, read back and compared; (b) each registry world is built with the version manifest carrying no module
+/// information / moduleGraph2 / moduleGraph1, with nothing / everything / a random subset cached; all variants are
+/// recorded as one `variants` trace event for T_Info.
+pub fn cmd_info(args: &[String]) -> i32 {
+  use rand::Rng;
+  use rand::SeedableRng;
+  use deno_graph::analysis::ModuleInfo;
+  let trace_path = arg(args, "--trace").expect("--trace");
+  let result_path = arg(args, "--result").expect("--result");
+  let seed: u64 = arg(args, "--seed").map(|s| s.parse().unwrap()).unwrap_or(1);
+  let n: usize = arg(args, "--n").map(|s| s.parse().unwrap()).unwrap_or(100);
+  let mut rng = rand::rngs::StdRng::seed_from_u64(seed);
+  let mut out: Vec<Value> = vec![];
+  let mut problems: Vec<Value> = vec![];
+  let mut roundtrips = 0usize;
+  let mut nontrivial = 0usize;
+  let parser = deno_graph::ast::DefaultEsParser;
+  let analyzer = deno_graph::ast::ParserModuleAnalyzer::new(&parser);
+  let mut roundtrip = |spec: &str, text: &str, problems: &mut Vec<Value>, roundtrips: &mut usize, nontrivial: &mut usize| {
+    let Ok(url) = deno_graph::ModuleSpecifier::parse(spec) else { return };
+    let mt = deno_graph::MediaType::from_specifier(&url);
+    let Ok(info) = analyzer.analyze_sync(&url, text.into(), mt) else { return };
+    *roundtrips += 1;
+    if info != ModuleInfo::default() {
+      *nontrivial += 1;
+    }
+    let j = serde_json::to_value(&info).unwrap();
+    match serde_json::from_value::<ModuleInfo>(j.clone()) {
+      Ok(back) => {
+        if back != info || serde_json::to_value(&back).unwrap() != j {
+          problems.push(json!({"what": "roundtrip", "spec": spec, "json": j, "prop": ["C13"]}));
+        }
+      }
+      Err(e) => problems.push(json!({"what": "roundtrip-deserialize", "spec": spec, "err": e.to_string(), "json": j, "prop": ["C13"]})),
+    }
+  };
+  // corpus: every module source embedded in tests/specs
+  if let Some(dir) = arg(args, "--corpus") {
+    for (spec, text) in corpus_sources(&dir) {
+      roundtrip(&spec, &text, &mut problems, &mut roundtrips, &mut nontrivial);
+    }
+  }
+  for i in 0..n {
+    let mut world = jsr::gen_info_world(&mut rng);
+    let wid = format!("iw{i}");
+    for id in world.mods.keys() {
+      roundtrip(&world.url_of(id), &world.render(id), &mut problems, &mut roundtrips, &mut nontrivial);
+    }
+    let paths: Vec<String> = world.registry["@s/p"].versions["1.0.0"].files.keys().cloned().collect();
+    let mut variants = vec![];
+    for info in ["none", "v2", "v1"] {
+      for cache in ["none", "all", "some"] {
+        if info == "none" && cache != "none" { continue; }
+        {
+          let pv = world.registry.get_mut("@s/p").unwrap().versions.get_mut("1.0.0").unwrap();
+          pv.info = info.into();
+          pv.cached = match cache { "all" => paths.clone(), "some" => paths.iter().filter(|_| rng.gen_bool(0.5)).cloned().collect(), _ => vec![] };
+        }
+        for kind in ["all", "code", "types"] {
+          let r = std::panic::catch_unwind(std::panic::AssertUnwindSafe(|| jsr::build_full(&world, kind_of(kind), &world.roots)));
+          match r {
+            Ok(fb) => variants.push(json!({"info": info, "cache": cache, "kind": kind, "g": graph_json(&world, &fb.graph)})),
+            Err(e) => problems.push(json!({"what": "panic", "world": wid, "msg": panic_msg(e), "prop": ["C03", "C13"]})),
+          }
+        }
+      }
+    }
+    out.push(json!({"ev": "variants", "world": wid, "w": serde_json::to_value(&world).unwrap(), "variants": variants}));
+  }
+  let mut f = std::io::BufWriter::new(std::fs::File::create(&trace_path).unwrap());
+  for e in &out {
+    writeln!(f, "{}", e).unwrap();
+  }
+  let res = json!({"worlds": n, "roundtrips": roundtrips, "nontrivial_infos": nontrivial, "trace_events": out.len(), "mismatches": problems});
+  std::fs::write(&result_path, serde_json::to_string(&res).unwrap()).unwrap();
+  0
+}
+
+/// Module sources embedded in the repository's spec files (`# <url>` header followed by the text).
+pub fn corpus_sources(dir: &str) -> Vec<(String, String)> {
+  fn walk(d: &std::path::Path, out: &mut Vec<std::path::PathBuf>) {
+    if let Ok(rd) = std::fs::read_dir(d) {
+      for e in rd.flatten() {
+        let p = e.path();
+        if p.is_dir() { walk(&p, out) } else if p.extension().is_some_and(|x| x == "txt") { out.push(p) }
+      }
+    }
+  }
+  let mut files = vec![];
+  walk(std::path::Path::new(dir), &mut files);
+  files.sort();
+  let mut res = vec![];
+  for f in files {
+    let Ok(text) = std::fs::read_to_string(&f) else { continue };
+    let mut cur: Option<(String, String)> = None;
+    for line in text.lines() {
+      if let Some(h) = line.strip_prefix("# ") {
+        if let Some(c) = cur.take() { res.push(c); }
+        let h = h.trim();
+        if h == "output" || h.starts_with("mod.") && false { cur = None; continue; }
+        if h.contains("://") || h.starts_with("mod") || h.contains('.') {
+          let spec = if h.contains("://") { h.to_string() } else { format!("file:///{h}") };
+          cur = Some((spec, String::new()));
+        }
+      } else if line.starts_with("# ") {
+      } else if let Some((_, t)) = cur.as_mut() {
+        t.push_str(line);
+        t.push('\n');
+      }
+    }
+    if let Some(c) = cur.take() { res.push(c); }
+  }
+  res
+}
+
+// ---------------------------------------------------------------------------------------------
+// C20: replay of the Encoding.tla decision table
+mod enc_replay {
+  use deno_graph::source::*;
+  use deno_graph::*;
+  use serde_json::Value;
+  use serde_json::json;
+  use std::collections::HashMap;
+  use std::sync::Arc;
+
+  pub fn payload_text(media: &str, seed: u64, cls: &str) -> String {
+    // seeded payload: ASCII only for the ascii class, BMP + astral characters otherwise
+    let fancy = ["é", "€", "😀", "日本", "ß\u{0301}"][(seed % 5) as usize];
+    let s = if cls == "ascii" { "plain" } else { fancy };
+    if media == "json" { format!("{{\"k{seed}\": \"{s}\"}}") } else { format!("export const v{seed} = \"{s}\";\n") }
+  }
+
+  pub fn bytes_for(cls: &str, text: &str) -> Vec<u8> {
+    let u16le = |t: &str| t.encode_utf16().flat_map(|u| u.to_le_bytes()).collect::<Vec<u8>>();
+    let u16be = |t: &str| t.encode_utf16().flat_map(|u| u.to_be_bytes()).collect::<Vec<u8>>();
+    match cls {
+      "ascii" | "utf8" => text.as_bytes().to_vec(),
+      "utf8bom" => [&[0xEF, 0xBB, 0xBF][..], text.as_bytes()].concat(),
+      "utf16le_bom" => [&[0xFF, 0xFE][..], &u16le(text)].concat(),
+      "utf16be_bom" => [&[0xFE, 0xFF][..], &u16be(text)].concat(),
+      "utf16le_nobom" => u16le(text),
+      "invalid_utf8" => {
+        let mut b = text.as_bytes().to_vec();
+        b.extend_from_slice(b"//");
+        b.extend_from_slice(&[0xC3, 0x28, 0xA0, 0xFF]);
+        b.push(b'\n');
+        b
+      }
+      "empty" => vec![],
+      _ => panic!("class"),
+    }
+  }
+
+  /// reference decoding with the Rust standard library only (independent of encoding_rs)
+  pub fn reference_decode(charset: &str, bytes: &[u8]) -> Option<String> {
+    let mut s = match charset {
+      "utf-8" => String::from_utf8_lossy(bytes).into_owned(),
+      "utf-16le" | "utf-16be" => {
+        let mut units = vec![];
+        let mut i = 0;
+        while i + 1 < bytes.len() {
+          units.push(if charset == "utf-16le" { u16::from_le_bytes([bytes[i], bytes[i + 1]]) } else { u16::from_be_bytes([bytes[i], bytes[i + 1]]) });
+          i += 2;
+        }
+        let mut t: String = char::decode_utf16(units).map(|r| r.unwrap_or('\u{FFFD}')).collect();
+        if bytes.len() % 2 == 1 {
+          t.push('\u{FFFD}');
+        }
+        t
+      }
+      "windows-1252" => {
+        // only decided for bytes whose windows-1252 mapping is the identity (0x00-0x7F, 0xA0-0xFF)
+        if bytes.iter().any(|b| (0x80..0xA0).contains(b)) {
+          return None;
+        }
+        bytes.iter().map(|b| *b as char).collect()
+      }
+      _ => return None,
+    };
+    if s.starts_with('\u{FEFF}') {
+      s.drain(..'\u{FEFF}'.len_utf8());
+    }
+    Some(s)
+  }
+
+  struct OneLoader {
+    mods: HashMap<String, (Vec<u8>, Option<HashMap<String, String>>)>,
+  }
+  impl Loader for OneLoader {
+    fn load(&self, specifier: &ModuleSpecifier, _o: LoadOptions) -> LoadFuture {
+      let r = self.mods.get(specifier.as_str()).map(|(b, h)| LoadResponse::Module {
+        content: Arc::from(b.clone()), mtime: None, specifier: specifier.clone(), maybe_headers: h.clone(),
+      });
+      Box::pin(async move { Ok(r) })
+    }
+  }
+
+  pub fn run(idx: usize, case: &Value, seed: u64, mism: &mut Vec<Value>, stats: &mut (usize, usize)) {
+    let row = &case["row"];
+    let exp = &case["expect"];
+    let (scheme, header, cls, media, pos) = (row["scheme"].as_str().unwrap(), row["header"].as_str().unwrap(), row["cls"].as_str().unwrap(),
+      row["media"].as_str().unwrap(), row["pos"].as_str().unwrap());
+    for rep in 0..3u64 {
+      let text = payload_text(media, seed.wrapping_add(rep).wrapping_add(idx as u64), cls);
+      let bytes = bytes_for(cls, &text);
+      let base = if scheme == "file" { "file:///".to_string() } else { "https://h.example/".to_string() };
+      let murl = format!("{base}m.{media}");
+      let rurl = format!("{base}root.ts");
+      let ctype = if media == "json" { "application/json" } else { "application/typescript" };
+      let headers = (header != "none").then(|| HashMap::from([("content-type".to_string(), format!("{ctype}; charset={header}"))]));
+      let mut mods = HashMap::new();
+      mods.insert(murl.clone(), (bytes.clone(), headers.clone()));
+      let with = if media == "json" { " with { type: \"json\" }" } else { "" };
+      mods.insert(rurl.clone(), (format!("import x from \"./m.{media}\"{with};\n").into_bytes(), None));
+      let loader = OneLoader { mods };
+      let mut g = ModuleGraph::new(GraphKind::All);
+      let root = ModuleSpecifier::parse(if pos == "root" { &murl } else { &rurl }).unwrap();
+      let exec = crate::ops::InlineExecutor;
+      futures::executor::block_on(g.build(vec![root], vec![], &loader, BuildOptions { executor: &exec, ..Default::default() }));
+      let mspec = ModuleSpecifier::parse(&murl).unwrap();
+      stats.0 += 1;
+      let charset = exp["charset"].as_str().unwrap();
+      let mut fail = |what: &str, obs: Value| {
+        mism.push(json!({"case": idx, "what": what, "row": row, "expect": exp, "observed": obs, "bytes": bytes, "prop": ["C20"]}));
+      };
+      match g.try_get(&mspec) {
+        Err(e) => {
+          let k = crate::project::module_err_kind(e);
+          if exp["outcome"] == "decodeError" {
+            if k != "decode" { fail("expected-decode-error", json!(k)); }
+          } else if k != "parse" {
+            // a decodable input whose text does not parse is a parse error, anything else is wrong
+            fail("unexpected-error", json!(k));
+          }
+        }
+        Ok(None) => fail("module-absent", json!(null)),
+        Ok(Some(m)) => {
+          stats.1 += 1;
+          if exp["outcome"] == "decodeError" {
+            fail("undecodable-input-became-module", json!("module"));
+            continue;
+          }
+          let (stored, orig): (std::sync::Arc<str>, Option<Arc<[u8]>>) = match m {
+            Module::Js(j) => (j.source.text.clone(), j.source.try_get_original_bytes()),
+            Module::Json(j) => (j.source.text.clone(), j.source.try_get_original_bytes()),
+            _ => { fail("unexpected-module-kind", json!(null)); continue; }
+          };
+          if let Some(reference) = reference_decode(charset, &bytes) {
+            if *stored != *reference {
+              fail("stored-text-differs-from-reference-decoding", json!({"stored": &*stored, "reference": reference}));
+            }
+          }
+          match (&orig, exp["original"].as_str().unwrap()) {
+            (Some(o), _) if **o != *bytes => fail("original-bytes-differ-from-supplied", json!(o.to_vec())),
+            (Some(_), "none") => fail("original-bytes-returned-where-model-says-none", json!(null)),
+            (None, "same") => fail("original-bytes-missing-where-model-says-same", json!(null)),
+            _ => {}
+          }
+          // size as serialised = byte length of the stored text
+          let v = serde_json::to_value(&g).unwrap();
+          if let Some(ms) = v["modules"].as_array() {
+            for x in ms {
+              if x["specifier"] == murl && x["size"].as_u64() != Some(stored.len() as u64) {
+                fail("size-differs-from-stored-text-length", json!(x["size"]));
+              }
+            }
+          }
+        }
+      }
+    }
+  }
+}
+
+pub fn cmd_replay_enc(args: &[String]) -> i32 {
+  let cases_path = arg(args, "--cases").expect("--cases");
+  let result_path = arg(args, "--result").expect("--result");
+  let seed: u64 = arg(args, "--seed").map(|s| s.parse().unwrap()).unwrap_or(1);
+  let mut mism = vec![];
+  let mut stats = (0usize, 0usize);
+  let mut n = 0;
+  for (i, l) in std::io::BufReader::new(std::fs::File::open(&cases_path).expect("cases")).lines().enumerate() {
+    let l = l.unwrap();
+    if l.trim().is_empty() { continue; }
+    let case: Value = serde_json::from_str(&l).unwrap();
+    enc_replay::run(i, &case, seed, &mut mism, &mut stats);
+    n += 1;
+  }
+  let res = json!({"cases": n, "loads": stats.0, "modules": stats.1, "mismatches": mism});
   std::fs::write(&result_path, serde_json::to_string(&res).unwrap()).unwrap();
   0
 }
